@@ -207,7 +207,7 @@ package netceptor
 //@ immutable Netceptor.nodeID, Netceptor.Logger, Netceptor.hashLock, Netceptor.connLock, Netceptor.routingTableLock, Netceptor.listenerLock, Netceptor.firewallLock
 //@ immutable Netceptor.knownNodeLock, Netceptor.seenUpdatesLock, Netceptor.sequenceLock, Netceptor.serviceAdsLock, Netceptor.workCommandsLock
 //@ immutable Netceptor.sendRouteFloodChan, Netceptor.updateRoutingTableChan, Netceptor.sendServiceAdsChan, Netceptor.context, Netceptor.epoch
-//@ immutable connInfo.ReadChan, connInfo.WriteChan, connInfo.Context, connInfo.CancelFunc, connInfo.lastReceivedLock, connInfo.logger
+//@ immutable connInfo.ReadChan, connInfo.WriteChan, connInfo.Context, connInfo.CancelFunc, connInfo.lastReceivedLock, connInfo.logger, connInfo.Cost
 //@ immutable BackendInfo.connectionCost, BackendInfo.nodeCost, BackendInfo.allowedPeers
 //@ immutable PacketConn.recvChan, PacketConn.s, PacketConn.localService
 
@@ -241,13 +241,15 @@ package netceptor
 //@     invariant CI: ci != nil && ci.Context != nil && ci.ReadChan != nil && initDoneChan != nil
 //@     invariant EST: [C11] flag("inserted") == established
 //@     invariant ID: [C11] established ==> remoteNodeID != "" && remoteNodeID != s.nodeID
+//@     invariant COST: [C11] !established ==> ci.Cost == bi.connectionCost && connectionCost == bi.connectionCost
 //@   loop range s.connections
 //@     invariant SEEN: [C11] remoteNodeAccepted ==> forall k string :: visited(k) ==> k != remoteNodeID
 //@     invariant NOTYET: [C11] !flag("inserted")
 //@   loop range bi.allowedPeers
 //@     invariant NOTACC: [C11] !remoteNodeAccepted && !flag("inserted")
-//@   site mapupdate Netceptor.connections ADMIT: [C11] requires key != "" && key != s.nodeID && !(key in s.connections) && value == ci
-//@        && (bi.allowedPeers == nil || exists i int :: 0 <= i && i < len(bi.allowedPeers) && bi.allowedPeers[i] == key)
-//@        && ci.Cost == ((key in bi.nodeCost) ? bi.nodeCost[key] : bi.connectionCost)
+//@   site mapupdate Netceptor.connections ADMITID: [C11] requires key != "" && key != s.nodeID && value == ci && key == remoteNodeID
+//@   site mapupdate Netceptor.connections ADMITNEW: [C11] requires !(key in s.connections)
+//@   site mapupdate Netceptor.connections ADMITALLOWED: [C11] requires bi.allowedPeers == nil || exists i int :: 0 <= i && i < len(bi.allowedPeers) && bi.allowedPeers[i] == key
+//@   site mapupdate Netceptor.connections ADMITCOST: [C11] requires ci.Cost == ((key in bi.nodeCost) ? bi.nodeCost[key] : bi.connectionCost)
 //@   site call removeConnection WHO: [C11] requires arg1 == remoteNodeID
 //@   ensures FORGOTTEN: [C11] !flag("inserted")
